@@ -65,8 +65,8 @@ PARAM_SKIP = {"range", "thread_count", "num_threads", "num_planners", "planners"
               # structural GNAT parameters of STRIDE constrain each other (min <= degree <= max): not swept
               "degree", "min_degree", "max_degree", "max_pts_per_leaf", "estimated_dimension"}
 PARAM_CHOICES = {  # sizes: small values only (a large batch only costs time)
-    "num_samples": ["100", "300", "1000"], "samples_per_batch": ["1", "10", "100", "200"],
-    "batch_size": ["1", "10", "100", "200"], "number_sampling_attempts": ["10", "100"],
+    "num_samples": ["100", "300", "1000"], "samples_per_batch": ["10", "100", "200"],   # a batch of 1 restarts the
+    "batch_size": ["10", "100", "200"],          # reverse search per sample: minutes, not a hang "number_sampling_attempts": ["10", "100"],
     "ordering_batch_size": ["1", "10", "100"], "max_failures": ["100", "1000"],
     "max_nearest_neighbors": ["8", "10", "20"], "set_max_num_goals": ["1", "2", "10"],
     "set_start_goal_pruning": ["1", "10", "50000"], "max_hybrid_paths": ["0", "2", "24"],
